@@ -297,11 +297,50 @@ fn output_result_xml<T: serde::Serialize>(result: T) -> Result<()> {
     // Write the XML 1.1 declaration
     writer.write_event(Event::Decl(BytesDecl::new("1.1", Some("utf-8"), None)))?;
 
+    // Keys come from the server (rule names, variables): turn them into valid XML element names.
+    fn xml_name(key: &str) -> String {
+        let mut name: String = key
+            .chars()
+            .map(|c| {
+                match c.is_ascii_alphanumeric() || c == '_' || c == '-' || c == '.' {
+                    true => c,
+                    false => '_',
+                }
+            })
+            .collect();
+
+        if !name.starts_with(|c: char| c.is_ascii_alphabetic() || c == '_') {
+            name.insert(0, '_');
+        }
+
+        name
+    }
+
+    // Escape text: markup characters, and the control characters XML 1.1 only allows as references.
+    fn xml_text(text: &str) -> String {
+        let mut escaped = String::with_capacity(text.len());
+        for c in text.chars() {
+            match c {
+                '<' => escaped.push_str("&lt;"),
+                '>' => escaped.push_str("&gt;"),
+                '&' => escaped.push_str("&amp;"),
+                '\0' => escaped.push('\u{FFFD}'), // not representable in XML at all
+                '\u{1}' ..= '\u{8}' | '\u{B}' | '\u{C}' | '\u{E}' ..= '\u{1F}' | '\u{7F}' ..= '\u{84}' | '\u{86}' ..= '\u{9F}' => {
+                    escaped.push_str(&format!("&#x{:X};", c as u32))
+                }
+                c => escaped.push(c),
+            }
+        }
+        escaped
+    }
+
     // Define a recursive function `json_to_xml` to convert the JSON value into XML
     // format. The function takes a mutable reference to the XML writer, an
     // optional key as a string slice, and a reference to the JSON value to be
     // converted.
     fn json_to_xml<W: std::io::Write>(writer: &mut Writer<W>, key: Option<&str>, value: &Value) -> Result<()> {
+        let key = key.map(xml_name);
+        let key = key.as_deref();
         match value {
             // If the JSON value is an object, iterate through its properties,
             // creating XML elements with corresponding keys and values.
@@ -354,7 +393,7 @@ fn output_result_xml<T: serde::Serialize>(result: T) -> Result<()> {
                 };
 
                 // Create a text node with the converted string value.
-                writer.write_event(Event::Text(BytesText::new(&text_string)))?;
+                writer.write_event(Event::Text(BytesText::from_escaped(xml_text(&text_string))))?;
 
                 if let Some(key) = key {
                     // Close the XML element.
